@@ -159,6 +159,7 @@ type worker struct {
 }
 
 type msim struct {
+	evictedDup map[string]bool
 	c    *kernel.Choices
 	r    *kernel.Result
 	p    kernel.Params
@@ -328,17 +329,15 @@ func (m *msim) onAppResult(w *worker, tx []byte, ok bool, gas int64) {
 		kernel.Harnessf("app gas %d for %s", gas, txName(tx))
 	}
 	if inPool {
+		// The application accepted a tx that is still pending. Whether the mempool now
+		// HOLDS it twice is decided from the real contents (oracle "duplicate" /
+		// "duplicate_after_cache_eviction" in checkContents and reap_duplicate), not from
+		// the callback: a mempool that ignores the second admission is correct.
 		if m.cacheOK && !wasCached {
-			m.r.Probe("duplicates_after_eviction")
-			if m.violate("duplicate_after_cache_eviction", "tx %s was admitted a second time while still in the mempool (its hash had been evicted from the %d-entry cache while the tx was still pending); contents %s",
-				txName(tx), m.cfg.CacheSize, names(m.pool)) {
-				return
-			}
-		} else {
-			if m.violate("duplicate", "tx %s was admitted although it is already in the mempool; contents %s", txName(tx), names(m.pool)) {
-				return
-			}
+			m.r.Probe("resubmitted_after_cache_eviction_while_pending")
+			m.evictedDup[key] = true
 		}
+		return
 	} else if m.cacheOK && wasCached {
 		if m.violate("reentered_while_cached", "tx %s passed the cache and was admitted although it is in the cache (cache, oldest first: %s)", txName(tx), names(m.cache.order)) {
 			return
@@ -496,7 +495,11 @@ func (m *msim) verifyLocked(where string) []string {
 	seen := map[string]bool{}
 	for _, t := range got {
 		if seen[t] {
-			if m.violate("duplicate", "%s: mempool holds %s twice: %s", where, txName([]byte(t)), names(got)) {
+			oracle := "duplicate"
+			if m.evictedDup[t] {
+				oracle = "duplicate_after_cache_eviction"
+			}
+			if m.violate(oracle, "%s: mempool holds %s twice: %s", where, txName([]byte(t)), names(got)) {
 				return got
 			}
 		}
@@ -788,7 +791,7 @@ func (m *msim) gossip(w *worker, steps int) {
 
 func runMempool(c *kernel.Choices, p kernel.Params) *kernel.Result {
 	coop.RequireInstrumented(instrumentedPkgs...)
-	m := &msim{c: c, r: kernel.NewResult(), p: p, prop: p.Property, workers: map[string]*worker{}, knownHit: map[string]bool{}}
+	m := &msim{c: c, r: kernel.NewResult(), p: p, prop: p.Property, workers: map[string]*worker{}, knownHit: map[string]bool{}, evictedDup: map[string]bool{}}
 	m.s = coop.New(c)
 	switch p.Knob("locklevel", "mix") {
 	case "0":
